@@ -185,6 +185,10 @@ class _PhaseHost(minirust.Obj):
         def fmt_display(self):
             return '<phase.%s>' % self.how
 
+        def fmt_debug(self):
+            # `{:?}` of an f64 is not `{}`: it switches to exponent form below 1e-4 (pi/16384 prints as 6.103515625e-5), which the QASM grammar does not have
+            return '<phase.%s printed with {:?}>' % self.how
+
     def __init__(self, zero=False):
         minirust.Obj.__init__(self, 'phase', {'to_f64': lambda a: _PhaseHost.Marker('to_f64'), 'clone': lambda a: self, 'is_zero': lambda a: zero}, strict=False)
 
